@@ -468,6 +468,8 @@ ep_op(int argc, char **argv)
         if (strcmp(fn, "cbc") == 0) rc = sts_cbc(&src, &snk);
         else if (strcmp(fn, "n_cbc") == 0) rc = sts_n_cbc(&src, &snk, n);
         else if (strcmp(fn, "drain_cbc") == 0) rc = sts_drain_cbc(&src, &snk);
+        else if (strcmp(fn, "atmost") == 0) rc = sts_atmost(&src, &snk, n);
+        else if (strcmp(fn, "some") == 0) rc = sts_some(&src, &snk);
         else if (strcmp(fn, "n") == 0) rc = sts_n(&src, &snk, n);
         else if (strcmp(fn, "drain") == 0) rc = sts_drain(&src, &snk);
         else if (strcmp(fn, "some_aux") == 0) rc = sts_some_aux(&src, &snk, &aux);
